@@ -158,3 +158,11 @@
 (assert (forall ((a Int) (b Int)) (! (=> (and (not (= (mod a edN) 0)) (not (= (mod b edN) 0))) (not (= (mod (imul a b) edN) 0))) :pattern ((mod (imul a b) edN)))))
 (assert (= (bitlen secpN) 256))
 (assert (= (bitlen edN) 253))
+(assert (forall ((x Int)) (! (=> (>= x 1) (and (>= (isqrt x) 1) (<= (isqrt x) x))) :pattern ((isqrt x)))))
+
+; ----- observable attributes of tss.ParsedMessage / MessageContent interface values -----
+(declare-fun msgcontent (Iface) Iface)
+(declare-fun msgbcast (Iface) Bool)
+(declare-fun msgfrom (Iface) Int)
+(declare-fun msgvalid (Iface) Bool)
+(declare-fun cvalid (Iface) Bool)
